@@ -244,10 +244,12 @@ def _compute(ctx):
     def ra_events(p):
         return [(i, e, norm(e.target)[len(RA):]) for i, e in enumerate(p.events)
                 if e.kind == "call" and norm(e.target or "").startswith(RA)]
-    pi = prog.body(Q + "push_internal")
-    r.functions.add(pi.name)
+    pi = prog.bodies.get(Q + "push_internal")
+    if pi is not None:
+        r.functions.add(pi.name)
     seen = set()
-    for p in exq.paths(pi):
+    # (without a push_internal of its own the linking CAS is judged by the `publish-cas` clause on the paths of push below)
+    for p in (exq.paths(pi) if pi is not None else []):
         for (i, e, op) in ra_events(p):
             if op.startswith("compare_exchange") and outer_field(e.args[0]) == "Node.next" and e.bb not in seen:
                 seen.add(e.bb)
